@@ -67,6 +67,7 @@ func (c *clipperD) ExecutePolyTreeD(clipType ClipType, fillRule FillRule, polytr
 }
 
 func (c *clipperD) ExecuteOC(clipType ClipType, fillRule FillRule, solutionClosed, solutionOpen *PathsD) bool {
+	c.usingPolyTree = false
 	*solutionClosed = (*solutionClosed)[:0]
 	*solutionOpen = (*solutionOpen)[:0]
 	solClosed64 := make(Paths64, 0)
@@ -91,6 +92,7 @@ func (c *clipperD) ExecuteOC(clipType ClipType, fillRule FillRule, solutionClose
 }
 
 func (c *clipperD) ExecuteWithScaleFunc(clipType ClipType, fillRule FillRule, solutionClosed, solutionOpen *PathsD, scaleFn func(path Path64, scale float64) PathD) bool {
+	c.usingPolyTree = false
 	*solutionClosed = (*solutionClosed)[:0]
 	*solutionOpen = (*solutionOpen)[:0]
 	solClosed64 := make(Paths64, 0)
